@@ -199,9 +199,13 @@ fn dictgen(env: &Env, image: &[u8], user: Option<&[u8]>) -> Option<Result<Gen, (
         "-i".into(), p(env, "model.zst"), "-l".into(), p(env, "lex.csv"), "-u".into(), p(env, "unk.def"),
         "-m".into(), p(env, "matrix.def"),
     ];
+    // a third of the runs weight the user lexicon in place (the same path for input and output): the program must have read
+    // the file before it creates the output (decided by the bytes of the file, so that a replay makes the same choice)
+    let in_place = user.map_or(false, |u| u.iter().fold(0u32, |a, b| a.wrapping_mul(31).wrapping_add(*b as u32)) % 3 == 0);
     if let Some(u) = user {
         write(env, "user.csv", u);
-        args.extend(["--user-lexicon-in".into(), p(env, "user.csv"), "--user-lexicon-out".into(), p(env, "user_out.csv")]);
+        let outp = if in_place { "user.csv" } else { "user_out.csv" };
+        args.extend(["--user-lexicon-in".into(), p(env, "user.csv"), "--user-lexicon-out".into(), p(env, outp)]);
     }
     args.extend(["--conn-id-info-out".into(), p(env, "bigram")]);
     let (st, _) = run_bin(env, "dictgen", &args, None);
@@ -212,7 +216,7 @@ fn dictgen(env: &Env, image: &[u8], user: Option<&[u8]>) -> Option<Result<Gen, (
                 lex: read(env, "lex.csv"),
                 matrix: read(env, "matrix.def"),
                 unk: read(env, "unk.def"),
-                user: if user.is_some() { read(env, "user_out.csv") } else { vec![] },
+                user: if user.is_some() { read(env, if in_place { "user.csv" } else { "user_out.csv" }) } else { vec![] },
                 left: read(env, "bigram.left"),
                 right: read(env, "bigram.right"),
                 cost_sorted: crate::trainer::sort_lines(&cost),
@@ -222,6 +226,22 @@ fn dictgen(env: &Env, image: &[u8], user: Option<&[u8]>) -> Option<Result<Gen, (
         "panic" => None,
         _ => Some(Err(())),
     }
+}
+
+/// The sentences as the text a program reads line by line: LF terminators; now and then CRLF terminators, and now and
+/// then no terminator after the last line (when that line is not empty) - the programs read with `BufRead::lines`, for
+/// which all of these are the same lines.
+pub fn stdin_lines(rng: &mut Rng, sents: &[String]) -> Vec<u8> {
+    let crlf = rng.chance(1, 6) && sents.iter().all(|x| !x.ends_with('\r'));
+    let mut v: Vec<u8> = vec![];
+    for x in sents {
+        v.extend_from_slice(x.as_bytes());
+        v.extend_from_slice(if crlf { b"\r\n" } else { b"\n" });
+    }
+    if rng.chance(1, 3) && sents.last().map_or(false, |x| !x.is_empty() && !x.ends_with('\r')) {
+        v.truncate(v.len() - if crlf { 2 } else { 1 });
+    }
+    v
 }
 
 pub fn run(seed: u64, n: usize, out: &mut dyn Write) {
@@ -444,7 +464,7 @@ pub fn run(seed: u64, n: usize, out: &mut dyn Write) {
         if let (Some(bytes), Some(Ok(_))) = (&sys_bytes, &lib_sys) {
             steps.push("tokenize");
             let sents = sentences(&mut rng, &s);
-            let input: Vec<u8> = sents.iter().flat_map(|x| x.bytes().chain(std::iter::once(b'\n'))).collect();
+            let input: Vec<u8> = stdin_lines(&mut rng, &sents);
             let ign = rng.below(3) == 0;
             let maxg = if rng.below(3) == 0 { Some(rng.below(4)) } else { None };
             // user lexicon given to the program: none, the one written by dictgen, or a word with an EMPTY feature
@@ -552,7 +572,7 @@ pub fn run(seed: u64, n: usize, out: &mut dyn Write) {
                     1 => vec![String::new(); 1 + rng.below(3)],
                     _ => rsents,
                 };
-                let input: Vec<u8> = sents.iter().flat_map(|x| x.bytes().chain(std::iter::once(b'\n'))).collect();
+                let input: Vec<u8> = stdin_lines(&mut rng, &sents);
                 let (st_r, _) = run_bin(&env, "reorder", &["-i".into(), p(&env, "sys.dic.zst"), "-o".into(), p(&env, "reordered")], Some(&input));
                 let lib = guarded(|| -> Result<(Vec<u8>, Vec<u8>, Vec<u16>, Vec<u16>), ()> {
                     let d = Dictionary::read(&bytes[..]).map_err(|_| ())?;
